@@ -301,7 +301,8 @@ spif_bool_t
 spif_mbuff_done(spif_mbuff_t self)
 {
     ASSERT_RVAL(!SPIF_MBUFF_ISNULL(self), FALSE);
-    if (self->size) {
+    if (self->buff != (spif_byteptr_t) NULL) {
+        /* A zero-size block (spif_mbuff_new_from_ptr(p, 0), an empty subbuff) is a block too. */
         FREE(self->buff);
         self->len = 0;
         self->size = 0;
